@@ -217,6 +217,80 @@ Proof.
   - split; reflexivity.
 Qed.
 
+(* ---- what exactly CAN leak through sorted()/min(): the enumeration order inside one key class ---- *)
+Section Stable.
+  Context {X : Type}.
+  Variable key : X -> Z.
+  Definition same_key (k : Z) (y : X) : bool := key y =? k.
+
+  Lemma filter_insert_by k x l :
+    filter (same_key k) (insert_by key x l) = if key x =? k then x :: filter (same_key k) l else filter (same_key k) l.
+  Proof.
+    unfold same_key. induction l as [|y r IH]; cbn.
+    - destruct (key x =? k); reflexivity.
+    - destruct (key x <=? key y) eqn:L; cbn.
+      + destruct (key x =? k); reflexivity.
+      + apply Z.leb_gt in L. rewrite IH.
+        destruct (key y =? k) eqn:Ey; destruct (key x =? k) eqn:Ex; try reflexivity.
+        apply Z.eqb_eq in Ey, Ex. lia.
+  Qed.
+
+  (* sorted() is stable: inside one key class the enumeration order survives - this is ALL that can leak *)
+  Lemma sort_by_stable k l : filter (same_key k) (sort_by key l) = filter (same_key k) l.
+  Proof.
+    induction l as [|x r IH]; [reflexivity|].
+    change (sort_by key (x :: r)) with (insert_by key x (sort_by key r)).
+    rewrite filter_insert_by, IH. cbn. unfold same_key at 3. destruct (key x =? k); reflexivity.
+  Qed.
+
+  (* min() returns the FIRST member of the minimal key class in enumeration order *)
+  Lemma min_by_first l x : min_by key l = Some x -> hd_error (filter (same_key (key x)) l) = Some x.
+  Proof.
+    revert x. induction l as [|a r IH]; cbn; intros x H; [discriminate|].
+    destruct (min_by key r) as [m|] eqn:E.
+    - destruct (key a <=? key m) eqn:L; inversion H; subst x; clear H.
+      + unfold same_key at 1. rewrite Z.eqb_refl. reflexivity.
+      + apply Z.leb_gt in L. unfold same_key at 1.
+        destruct (key a =? key m) eqn:Ea; [apply Z.eqb_eq in Ea; lia|]. apply IH. reflexivity.
+    - inversion H; subst x. unfold same_key at 1. rewrite Z.eqb_refl. reflexivity.
+  Qed.
+End Stable.
+
+(* a key-sorted list is determined by its key classes *)
+Lemma ksorted_classes_unique {X : Type} (key : X -> Z) : forall l1 l2 : list X, ksorted key l1 -> ksorted key l2 ->
+  (forall k, filter (same_key key k) l1 = filter (same_key key k) l2) -> l1 = l2.
+Proof.
+  induction l1 as [|a r1 IH]; intros l2 H1 H2 Hc.
+  - destruct l2 as [|b r2]; [reflexivity|]. specialize (Hc (key b)). cbn in Hc. unfold same_key at 1 in Hc.
+    rewrite Z.eqb_refl in Hc. discriminate.
+  - destruct l2 as [|b r2].
+    + specialize (Hc (key a)). cbn in Hc. unfold same_key at 1 in Hc. rewrite Z.eqb_refl in Hc. discriminate.
+    + destruct H1 as [Ha Hr1], H2 as [Hb Hr2].
+      assert (In a (b :: r2)) as Ia.
+      { apply (proj1 (filter_In (same_key key (key a)) a (b :: r2))). rewrite <- Hc. cbn. unfold same_key at 1.
+        rewrite Z.eqb_refl. left; reflexivity. }
+      assert (In b (a :: r1)) as Ib.
+      { apply (proj1 (filter_In (same_key key (key b)) b (a :: r1))). rewrite Hc. cbn. unfold same_key at 1.
+        rewrite Z.eqb_refl. left; reflexivity. }
+      assert (Hk : key a = key b).
+      { destruct Ia as [->|Ia]; [reflexivity|]. destruct Ib as [->|Ib]; [reflexivity|].
+        specialize (Ha b Ib). specialize (Hb a Ia). lia. }
+      assert (a = b).
+      { specialize (Hc (key a)). cbn in Hc. unfold same_key in Hc. rewrite <- Hk, Z.eqb_refl in Hc.
+        inversion Hc. reflexivity. }
+      subst b. f_equal. apply IH; auto. intros k. specialize (Hc k). cbn in Hc.
+      destruct (same_key key k a); [inversion Hc; reflexivity | exact Hc].
+Qed.
+
+(* sorted(S, key=k) is a function of the per-key-class enumeration orders alone: whatever else differs between two
+   enumerations (two hash seeds, two processes) cannot be seen in the result *)
+Lemma sort_by_determined {X : Type} (key : X -> Z) (l l' : list X) :
+  (forall k, filter (same_key key k) l = filter (same_key key k) l') -> sort_by key l = sort_by key l'.
+Proof.
+  intros H. apply (ksorted_classes_unique key); try apply sort_by_sorted.
+  intros k. rewrite !sort_by_stable. apply H.
+Qed.
+
 (* `x = s.pop()` / `x, = s` on a set of one member *)
 Lemma singleton_enum {X : Type} (e e' : list X) : Permutation e e' -> List.length e = 1%nat -> e = e'.
 Proof.
